@@ -1,0 +1,34 @@
+//go:build verif
+
+package klevdb
+
+import (
+	"github.com/klev-dev/klevdb/pkg/index"
+	"github.com/klev-dev/klevdb/pkg/message"
+)
+
+// VerifConsts exports constants for the verification translator.
+func VerifConsts() map[string]any {
+	m := map[string]any{}
+	for k, v := range message.VerifConsts() {
+		m[k] = v
+	}
+	for k, v := range index.VerifConsts() {
+		m[k] = v
+	}
+	m["log.offsetOldest"] = int64(OffsetOldest)
+	m["log.offsetNewest"] = int64(OffsetNewest)
+	m["log.offsetInvalid"] = int64(OffsetInvalid)
+	return m
+}
+
+// VerifVersionOf reports 1 or 2 for the public version values (0 = unknown).
+func VerifVersionOf(v Version) int {
+	switch v {
+	case V1:
+		return 1
+	case V2:
+		return 2
+	}
+	return 0
+}
